@@ -18,6 +18,11 @@ def main():
     with open(tmp, 'w') as f:
         json.dump(res, f, default=str)
     os.replace(tmp, out)
+    # skip finalizers (multiprocessing pools of the code under test may
+    # block in them); the result is on disk
+    sys.stdout.flush()
+    sys.stderr.flush()
+    os._exit(0)
 
 
 if __name__ == '__main__':
